@@ -792,10 +792,14 @@ class Agent(object):
                 self.run()
             while not self._stopping.is_set():
                 # Process messages, if any
+                # The shutdown flag must be read before polling: a message
+                # may be queued, and the shutdown requested, just after the
+                # poll timed out.
+                shutting_down = self._shutdown.is_set()
                 full_msg, t = self._messaging.next_msg(0.05)
                 if full_msg is None:
                     self._idle = True
-                    if self._shutdown.is_set():
+                    if shutting_down:
                         self.logger.info("No message during shutdown, "
                                          "stopping agent thread")
                         break
